@@ -15,7 +15,8 @@ import (
 )
 
 type c02Ev struct {
-	K       string  `json:"k"` // arrive | complete | cancel | sleep | burst
+	K       string  `json:"k"` // arrive | complete | cancel | sleep | burst | mass (N arrivals at one instant)
+	N       int     `json:"n,omitempty"`
 	Key     string  `json:"key,omitempty"`
 	Hold    int     `json:"hold,omitempty"` // arrive: >0 = the caller completes by itself that many ms after the grant
 	Outcome int     `json:"outcome,omitempty"`
@@ -374,6 +375,10 @@ func (x *evExec) do(e c02Ev, inBurst bool) {
 					x.gaveUp = true
 				}
 			}
+		}
+	case "mass":
+		for i := 0; i < e.N; i++ {
+			w.start(w.newCaller("a", 0, 0))
 		}
 	case "burst":
 		x.coincide = true
